@@ -213,7 +213,7 @@ def c03_scenario(kind="new type", fmt="stream"):
     D = _descs()
     a, a2, b = D["A"](n=1), D["A2"](s="x"), D["B"](s="b")
     pre = {"new type": [], "known type": [a], "same name registered": [a2], "nested, nothing known": [], "nested, holder known": [D["N"](r=None, rs=[])], "nested, inner known": [a, b],
-           "grouped, nothing known": [], "grouped, one member known": [a], "grouped, same names registered": [a, D["B"].__class__("c03/b", [("varint", "zz")])(zz=1)], "grouped twice, other members": [GroupedRecord("c03/grp", [D["G1"](n=1), b])], "same hash text, other name": [], "two writers": [], "frame": [], "write refused while packing, caller carries on": [], "names that differ only in '/' and '_'": []}[kind]
+           "grouped, nothing known": [], "grouped, one member known": [a], "grouped, same names registered": [a, D["B"].__class__("c03/b", [("varint", "zz")])(zz=1)], "grouped twice, other members": [GroupedRecord("c03/grp", [D["G1"](n=1), b])], "same hash text, other name": [], "two writers": [], "frame": [], "write refused while packing, caller carries on": [], "names that differ only in '/' and '_'": [], "declared with byte strings": []}[kind]
     if kind.startswith("nested"):
         rec = D["N"](r=a, rs=[a2, b])
     elif kind == "grouped twice, other members":
@@ -240,6 +240,29 @@ def c03_scenario(kind="new type", fmt="stream"):
             bad = _check_file(fmt, w.data(), w.written)
         except Exception as e:
             bad = f"reading back raised {type(e).__name__}: {e}"
+        return {"violates": bool(bad), "detail": bad}
+    if kind == "declared with byte strings":
+        import subprocess
+        import sys
+
+        # (a fresh interpreter: an equal text-spelled descriptor created earlier in this process would re-bind the shared record class)
+        code = (
+            "import io, sys\n"
+            "from flow.record import RecordDescriptor\n"
+            "from flow.record.stream import RecordStreamWriter, RecordStreamReader\n"
+            "from flow.record.adapter.jsonfile import JsonfileWriter, JsonfileReader\n"
+            "X = RecordDescriptor(b'c03/bytes', [(b'varint', b'n'), ('string', b's')])\n"
+            f"fmt = {fmt!r}\n"
+            "fp = io.BytesIO() if fmt == 'stream' else io.StringIO()\n"
+            "w = RecordStreamWriter(fp) if fmt == 'stream' else JsonfileWriter(fp)\n"
+            "w.write(X(n=1, s='x')); w.flush()\n"
+            "data = fp.getvalue()\n"
+            "rd = RecordStreamReader(io.BytesIO(data)) if fmt == 'stream' else JsonfileReader(io.StringIO(data))\n"
+            "back = list(rd)\n"
+            "assert len(back) == 1 and back[0]._desc.name == 'c03/bytes' and [tuple(f) for f in back[0]._desc.get_field_tuples()] == [('varint', 'n'), ('string', 's')], back\n"
+        )
+        p_ = subprocess.run([sys.executable, "-c", code], capture_output=True, text=True, env=dict(os.environ))
+        bad = None if p_.returncode == 0 else f"a type declared with byte strings cannot be written and read back: {p_.stderr.strip().splitlines()[-1] if p_.stderr.strip() else p_.returncode}"
         return {"violates": bool(bad), "detail": bad}
     if kind == "write refused while packing, caller carries on":
         from flow.record import RecordDescriptor
